@@ -5,9 +5,9 @@
 EXTENDS ConfigDump
 
 DemoTypes == {"S", "FC"}
-DemoFields == [t \in DemoTypes |-> IF t = "S" THEN {"o", "k", "p", "n", "s", "d", "c"} ELSE {"tls_context", "tls_context_set", "match"}]
+DemoFields == [t \in DemoTypes |-> IF t = "S" THEN {"o", "k", "p", "n", "w", "s", "d", "c"} ELSE {"tls_context", "tls_context_set", "match"}]
 DemoKind == [t \in DemoTypes |->
-               IF t = "S" THEN ("o" :> "omit" @@ "k" :> "keep" @@ "p" :> "ptr" @@ "n" :> "ptrnull" @@ "s" :> "struct" @@ "d" :> "default" @@ "c" :> "clamp")
+               IF t = "S" THEN ("o" :> "omit" @@ "k" :> "keep" @@ "p" :> "ptr" @@ "n" :> "ptrnull" @@ "w" :> "pair" @@ "s" :> "struct" @@ "d" :> "default" @@ "c" :> "clamp")
                ELSE ("tls_context" :> "reshape" @@ "tls_context_set" :> "reshape" @@ "match" :> "omit")]
 DemoClasses == [t \in DemoTypes |->
                IF t = "S" THEN [f \in DemoFields[t] |-> IF f = "s" THEN {"unset", "zero", "typ"} ELSE Classes]
@@ -16,4 +16,5 @@ DemoConflicts == [t \in DemoTypes |-> IF t = "FC" THEN {{"tls_context", "tls_con
 NoDefects == {}
 DefectMarshalDrops == {"MarshalDrops"}
 DefectPtrZero == {"PtrZeroOmitted"}
+DefectPair == {"PairNotInverse"}
 ====
